@@ -12,11 +12,14 @@ from .C01 import _cls
 XS = 'xmlns:xs="http://www.w3.org/2001/XMLSchema"'
 SCHEMA = f'''<xs:schema {XS} targetNamespace="urn:t" xmlns:t="urn:t" elementFormDefault="qualified">
  <xs:simpleType name="ints"><xs:list itemType="xs:int"/></xs:simpleType>
+ <xs:simpleType name="pt3"><xs:restriction base="t:ints"><xs:pattern value="[0-9]( [0-9]){{2}}"/></xs:restriction></xs:simpleType>
+ <xs:simpleType name="code3"><xs:restriction base="xs:integer"><xs:pattern value="[0-9]{{3}}"/></xs:restriction></xs:simpleType>
  <xs:element name="r"><xs:complexType><xs:sequence>
    <xs:element name="item" maxOccurs="unbounded"><xs:complexType><xs:sequence>
       <xs:element name="name" type="xs:token"/><xs:element name="qty" type="xs:positiveInteger" minOccurs="0"/>
       <xs:element name="price" type="xs:decimal" minOccurs="0"/><xs:element name="flag" type="xs:boolean" minOccurs="0"/>
       <xs:element name="when" type="xs:date" minOccurs="0"/><xs:element name="codes" minOccurs="0"><xs:simpleType><xs:list itemType="xs:int"/></xs:simpleType></xs:element>
+      <xs:element name="pt" type="t:pt3" minOccurs="0"/><xs:element name="c3" type="t:code3" minOccurs="0"/>
       <xs:element name="tags" type="t:ints" minOccurs="0" maxOccurs="unbounded"/>
       <xs:element name="note" minOccurs="0" maxOccurs="2"><xs:complexType><xs:simpleContent><xs:extension base="xs:string"><xs:attribute name="lang" type="xs:language"/></xs:extension></xs:simpleContent></xs:complexType></xs:element>
       <xs:element name="amount" minOccurs="0"><xs:complexType><xs:simpleContent><xs:extension base="xs:decimal"><xs:attribute name="cur" type="xs:token"/></xs:extension></xs:simpleContent></xs:complexType></xs:element>
@@ -41,6 +44,8 @@ def gen(rng):
         if rng.random() < .5: parts.append(f'<t:flag>{rng.choice(["true", "0", "1", "false"])}</t:flag>')
         if rng.random() < .5: parts.append(f'<t:when>{rng.choice(["2020-02-29", "1999-12-31Z", "2001-01-01+05:00"])}</t:when>')
         if rng.random() < .5: parts.append(f'<t:codes>{rng.choice(["1 2 3", "", "7"])}</t:codes>')
+        if rng.random() < .5: parts.append(f'<t:pt>{rng.choice(["1 2 3", "0 0 9"])}</t:pt>')       # pattern facets on a list and on typed (non-string) values: enforced on encode as on decode
+        if rng.random() < .5: parts.append(f'<t:c3>{rng.choice(["123", "450"])}</t:c3>')
         for _ in range(rng.randrange(0, 4) if rng.random() < .5 else 0): parts.append(f'<t:tags>{rng.choice(["", "1 2", "7", ""])}</t:tags>')      # repeated list-typed element, empty occurrences included
         for _ in range(rng.randrange(0, 3)): parts.append(f'<t:note lang="en">{rng.choice(["hi", "", " sp "])}</t:note>')
         if rng.random() < .5: parts.append(f'<t:amount cur="EUR">{rng.choice(["0", "0.0", "12.5", "-0"])}</t:amount>')       # falsy typed values in simple content
@@ -85,7 +90,7 @@ def mutate(rng, d):
         kids = [c for c in keys if not c.startswith('@')]
         for c in kids[rng.randrange(len(kids)):] if kids else []: del x[c]
     elif op == 'dup': x[k] = [x[k], copy.deepcopy(x[k])] if not isinstance(x[k], list) else x[k] + x[k][:1]
-    elif op == 'retype': x[k] = rng.choice(['zz', -5, 1.5, True, None, [1, 'a'], {'$': 'q'}])
+    elif op == 'retype': x[k] = rng.choice(['zz', -5, 1.5, True, None, [1, 'a'], {'$': 'q'}, 1234, 7, [1, 2], [1, 2, 3, 4]])
     elif op == 'reorder':
         items = list(x.items()); rng.shuffle(items); x.clear(); x.update(items)
     else: x[k + 'X'] = x.pop(k)
